@@ -70,7 +70,24 @@ func genC32(seed uint64) *Plan {
 			}
 			pl.Steps = append(pl.Steps, Step{Kind: "is_lsp", Peer: nb, IS: &ISStep{LSP: l}})
 		case "csnp":
-			pl.Steps = append(pl.Steps, Step{Kind: "is_csnp", Peer: nb, IS: &ISStep{Entries: entries(), Full: true}})
+			st := &ISStep{Entries: entries(), Full: true}
+			if r.Chance(0.4) {
+				// a partial CSNP: only what lies inside its range may be concluded to be missing
+				st.Full = false
+				st.RangeLo = pick(r, []uint8{0, 49, 50, 51})
+				st.RangeHi = pick(r, []uint8{50, 51, 52, 100})
+				if st.RangeHi < st.RangeLo {
+					st.RangeLo, st.RangeHi = st.RangeHi, st.RangeLo
+				}
+				var in []ISEntry
+				for _, e := range st.Entries {
+					if e.Sys >= st.RangeLo && e.Sys <= st.RangeHi {
+						in = append(in, e)
+					}
+				}
+				st.Entries = in
+			}
+			pl.Steps = append(pl.Steps, Step{Kind: "is_csnp", Peer: nb, IS: st})
 		case "psnp":
 			es := entries()
 			if len(es) == 0 {
@@ -404,6 +421,9 @@ func (o *c32Oracle) after(kind string, i int, s *Step) {
 				o.snpEntry(c, e)
 			}
 			for id, m := range o.db {
+				if !s.IS.Full && (id.SystemID[5] < s.IS.RangeLo || id.SystemID[5] > s.IS.RangeHi) {
+					continue // outside the range this CSNP describes
+				}
 				if !listed[id] && m.seq != 0 && m.life > 0 {
 					o.setSRM(m, c)
 					w.Env.probe("csnp_misses_lsp")
